@@ -184,6 +184,20 @@ class HoistSetupCallsIntoConditionals(RewritePattern):
         old_in_state = op.in_state
         assert isinstance(old_in_state, OpResult)
 
+        # Step 0: all values the setup uses must already be available inside the scf.if.
+        # A value computed between the scf.if and the setup (in the same block) does not
+        # dominate the branches, so the setup cannot be hoisted.
+        if_op = op.in_state.owner
+        block = op.parent_block()
+        if block is None or if_op.parent_block() is not block:
+            return
+        if_idx = block.get_operation_index(if_op)
+        for val in op.values:
+            if not isinstance(val, OpResult):
+                continue
+            if val.op.parent_block() is block and block.get_operation_index(val.op) > if_idx:
+                return
+
         # Step 1: Check that it's legal to move:
         # grab all launch op uses of the SSA value produced by the scf.if
         # this will only find things that happen *after* the scf.if, so nothing
